@@ -254,6 +254,53 @@ int main(int argc, char** argv) {
         std::printf("T %d %s\n", e.tid, e.note.c_str());
     std::printf("TRACE-END %s\n", desc.c_str());
   }
+  // ---- extra oracles without a trace (resource types / configurations the traced scenarios do not use)
+  {
+    // (a) resources larger than a cache line: storage of distinct resources must not overlap
+    struct Big {
+      char pad[168];
+      int id;
+      explicit Big(int i) : id(i) { std::memset(pad, i, sizeof pad); }
+    };
+    for (int size = 2; size <= 4; ++size) {
+      int next = 0;
+      dispenso::ResourcePool<Big> bp((size_t)size, [&] { return Big(next++); });
+      std::vector<dispenso::Resource<Big>> hs;
+      for (int i = 0; i < size; ++i) hs.push_back(bp.acquire());
+      for (int i = 0; i < size; ++i)
+        for (int j = i + 1; j < size; ++j) {
+          auto a = reinterpret_cast<uintptr_t>(&hs[(size_t)i].get()), b = reinterpret_cast<uintptr_t>(&hs[(size_t)j].get());
+          uintptr_t d = a > b ? a - b : b - a;
+          if (d < sizeof(Big))
+            std::printf("PFAIL ResourcePool resources overlap in memory | sizeof(T)=%zu size=%d distance=%zu\n", sizeof(Big), size, (size_t)d);
+        }
+      for (int i = 0; i < size; ++i) {
+        bool ok = hs[(size_t)i].get().id >= 0 && hs[(size_t)i].get().id < size;
+        for (char ch : hs[(size_t)i].get().pad) ok = ok && ch == (char)hs[(size_t)i].get().id;
+        if (!ok) std::printf("PFAIL ResourcePool resource contents clobbered by a neighbour | sizeof(T)=%zu size=%d index=%d\n", sizeof(Big), size, i);
+      }
+    }
+    // (b) two pools of the same type: move-assigning a handle of pool B onto a handle of pool A must give A's
+    //     resource back to A (afterwards every resource of A can be acquired again) and leave B's count alone
+    {
+      struct Small { int pool, id; };
+      int na = 0, nb = 0;
+      dispenso::ResourcePool<Small> A(2, [&] { return Small{0, na++}; });
+      dispenso::ResourcePool<Small> B(2, [&] { return Small{1, nb++}; });
+      {
+        auto ha = A.acquire();
+        auto hb = B.acquire();
+        ha = std::move(hb);   // A's resource goes home; ha now holds B's
+        if (ha.get().pool != 1) std::printf("PFAIL ResourcePool move assignment across pools lost the source's resource | pool=%d\n", ha.get().pool);
+        size_t freeA = A.pool_.size_approx(), freeB = B.pool_.size_approx();
+        if (freeA != 2 || freeB != 1)
+          std::printf("PFAIL ResourcePool move assignment across pools returned a resource to the wrong pool | freeA=%zu freeB=%zu\n", freeA, freeB);
+      }
+      if (A.pool_.size_approx() != 2 || B.pool_.size_approx() != 2)
+        std::printf("PFAIL ResourcePool resource counts wrong after cross-pool handles were released | freeA=%zu freeB=%zu\n",
+                    A.pool_.size_approx(), B.pool_.size_approx());
+    }
+  }
   std::printf("STAT cases %lld\n", cases);
   std::fflush(stdout);
   _exit(0);
